@@ -26,10 +26,8 @@ pub fn cases(ctx: &Ctx) -> Vec<Case> {
             for (fi, &fps) in fpss.iter().enumerate() {
                 i += 1;
                 // quick: one fps per (k, latency) cell, rotating with the seed; thorough: all
-                if ctx.quick() && (((i - 1) / 3) + ctx.seed) % 3 != fi as u64 {
-                    continue;
-                }
-                let reps = if ctx.quick() { 1 } else { 4 };
+                let _ = fi;
+                let reps = if ctx.quick() { 2 } else { 12 };
                 for rep in 0..reps {
                     let mut rr = r.fork(i * 16 + rep);
                     let mut s = Scn::base(rr.next());
@@ -228,7 +226,7 @@ pub fn check(ctx: &Ctx) -> i32 {
         level: "exploration",
         rule: "two peers over a clean link with symmetric latency {0,5,10,20,50,100} ms, equal input delays, fps {30,60,120}, polling 8 times per frame (as the documented main loop does); a lead k in -7..=7 is produced by letting one side sleep |k| frames once both are Running; 900 frames. The true lead is MEASURED from the harness's own record of both game frames at the same virtual instant. Over the steady part (after the sleep, 90 frames and 700 ms of warm-up; only if the measured lead varies by at most 2): frames_ahead() of A within 1 of the measured lead interval, of B within 1 of its negation, their sum within 1 of zero; network_stats().ping in [2l, 2l + one tick]; remote_frames_behind equals the other side's local_frames_behind whenever that was constant for 3 report intervals; every WaitRecommendation has skip_frames == frames_ahead() >= 3 and successive ones are >= 60 frames apart; network_stats returns only NotSynchronized/NotEnoughData, never numbers, during the first second after session creation. Non-trivial: a steady window was judged. Distinct: grid cell + trace hash.".into(),
         assumptions: std_assumptions(),
-        floor_nontrivial: if ctx.quick() { 40 } else { 500 },
+        floor_nontrivial: if ctx.quick() { 150 } else { 1000 },
         exhaustive: None,
         extra: Map::new(),
     };
